@@ -129,6 +129,51 @@ def plan(tier):
     return sh
 
 
+def near_threshold(st):
+    """decisions a few float32 steps away from the beta threshold: a one-word sentence over the 3-tag grammar, parsed with nbest = 8, returns
+    exactly the admitted tags. The second tag sits k float32 steps from best + log(beta); any faithful float32 evaluation of the
+    statement (log space or probability space) errs by less than 2 steps there, so |k| >= 3 is decided."""
+    import numpy as np, math
+    from mc import sjudge
+    G = C01.grammars()
+    gi = len(G) - 2
+    g, derivs, M, u, Mt, nat = C01.Space.get(gi, 1)
+    for best in (0.0, -0.5, -3.0):
+        for beta in (0.5, 0.01, 1e-5):
+            thr = np.float32(best + math.log(float(np.float32(beta))))
+            for k in (-9, -4, -3, 3, 4, 9):
+                s = thr
+                for _ in range(abs(k)):
+                    s = np.nextafter(s, np.float32(-np.inf if k < 0 else np.inf), dtype=np.float32)
+                for pos in ((0, 1, 2), (1, 0, 2), (2, 1, 0)):
+                    row = [0.0, 0.0, 0.0]
+                    row[pos[0]], row[pos[1]], row[pos[2]] = best, float(s), -64.0
+                    X = np.asarray([row + [-1.0, -1.0]], dtype=np.float32)
+                    tags, deps = S.split_scores(X, 1, 3)
+                    st.count('executions')
+                    st.count('near_threshold_cases')
+                    st.count('nontrivial')
+                    out = nat.run(tags, deps, unary_penalty=0.5, pruning_size=3, use_beta=True, beta=beta, nbest=8, max_step=10000000)
+                    base = dict(engine='near_threshold', grammar=g.name, n=1, x=X[0].tolist(), cfg=dict(pruning_size=3, use_beta=True, beta=beta, nbest=8), steps=k, best=best)
+                    if 'error' in out or int(out['status'][0]) != 0:
+                        st.violation('beam/near_threshold/failed', f'one-word sentence with tags {row} failed or raised (beta {beta})', **base)
+                        continue
+                    used = set()
+                    f = int(out['first'][0])
+                    for j in range(int(out['nres'][0])):
+                        tree, _ = nat.canon(out['ser'][out['off'][f + j]:out['off'][f + j + 1]])
+                        t = tree
+                        while t is not None and t[0] != 'L':
+                            t = t[3]
+                        if t is not None:
+                            used.add([str(c) for c in g.tags].index(t[1]))
+                    want = {pos[0]} | ({pos[1]} if k > 0 else set())
+                    if used != want:
+                        kind = 'admits_below' if used - want else 'drops_above'
+                        st.violation(f'beam/near_threshold/{kind}', f'best tag {best}, beta {beta}: the tag {abs(k)} float32 steps {"above" if k > 0 else "below"} the threshold '
+                                     f'({float(s)!r} vs {float(thr)!r}) is {"used" if pos[1] in used else "not used"}; tags used {sorted(used)}, admitted by the statement {sorted(want)}', **base)
+
+
 def cli_defaults(st):
     """the defaults the command line and depccg.parsing.run hand to the search are inside the ranges the statement quantifies over"""
     import re, os, inspect
@@ -162,10 +207,11 @@ def check(tier, seed):
     shards = core.rotate(plan(tier), seed)
     st = core.pmap(sprops.run_shard, shards)
     st.merge(core.pmap(wide_shard, [(p, tier) for p in range(WIDE_T)]))
+    near_threshold(st)
     defaults = cli_defaults(st)
     return sprops.finish(PROP, tier, seed, st, t0, shards,
                          rule=('grammar in which every tag choice yields a distinct derivation (3 tags, n<=2): every tag row over {0,-1,-4,-150,-1e33} (-150: exp underflows in float32) for every word x pruning_size {1,2,3} '
-                               'x beta {off,0.5,0.2,0.01,1e-8}; plus the shared grammars under beam settings; plus a 40-tag inventory: one-word sentences with nbest=40 (the result lists exactly the admitted tags), the best tag at every position and tags at -3 / -8 at every ordered pair of other positions x pruning_size {2,4,6,40} x beta {off,0.2,0.01}. Oracle: admitted(w) from the statement; leaves must be admitted, result must be the '
+                               'x beta {off,0.5,0.2,0.01,1e-8}; plus the shared grammars under beam settings; plus decisions 3, 4 and 9 float32 steps on either side of the threshold (one-word sentences, best tag in {0,-0.5,-3}, beta in {0.5,0.01,1e-5}); plus a 40-tag inventory: one-word sentences with nbest=40 (the result lists exactly the admitted tags), the best tag at every position and tags at -3 / -8 at every ordered pair of other positions x pruning_size {2,4,6,40} x beta {off,0.2,0.01}. Oracle: admitted(w) from the statement; leaves must be admitted, result must be the '
                                'optimum over admitted-only derivations, failure iff none. Ties at the pruning boundary, probabilities within e^0.3 of the threshold and all-zero '
                                'probabilities are unspecified and not judged. non-trivial = >=2 differently scored admitted derivations'),
                          assumptions=['thresholds kept a factor >1.3 away from every judged decision', 'dyadic scores'],
@@ -173,4 +219,11 @@ def check(tier, seed):
 
 
 def replay(rec):
+    if rec.get('engine') == 'near_threshold':
+        boot.load_parsing()
+        st = core.Stats()
+        near_threshold(st)
+        for k, v in st.viol.items():
+            print('REPRODUCED', k, v[0]['what'])
+        return 1 if st.viol else 0
     return sprops.replay(rec, J)
